@@ -185,6 +185,7 @@ def r07_3(ctx):
         cases.append((f"{L}5:4", cls, 4))
         cases.append((f"{L}ss", cls, None))
         cases.append((f"{L}31:30", cls, 30))
+        cases.append((f"{L}1:0", cls, 0))  # the pair that contains register number 0
     cases.append(("P3", O.REG_CLASS["P"], 3))
     cases.append(("R10", O.REG_CLASS["R"], 10))
     # explicit registers whose two digits are equal are single registers (pairs are spelled Rdd or Rn:m)
